@@ -595,8 +595,35 @@ def _parse_e2e_line(r, k, ws):
             r["TIMEOUT"] = True
 
 
-def run_e2e(args, flavour="rel", timeout=600, env=None):
-    """args: dict key->value (cfg.<field> allowed).  Returns parsed result (+ rc, crashed)."""
+_RETRY_LOCK = None
+
+
+def run_e2e(args, flavour="rel", timeout=600, env=None, retry_hung=True):
+    """args: dict key->value (cfg.<field> allowed).  Returns parsed result (+ rc, crashed).
+
+    A run that hits its watchdog is repeated ONCE, alone (serialised across this process's threads) and with four times the
+    watchdog, before it is reported as hung: on a loaded machine a watchdog hit is not evidence of a hang (DESIGN R6).  A real
+    hang hangs again and is reported; `r["retried"]` says the first attempt timed out."""
+    global _RETRY_LOCK
+    r = _run_e2e_once(args, flavour, timeout, env)
+    if r["hung"] and retry_hung:
+        import threading
+        if _RETRY_LOCK is None:
+            _RETRY_LOCK = threading.Lock()
+        a2 = dict(args)
+        try:
+            a2["watchdog"] = int(a2.get("watchdog", 120)) * 4
+        except (TypeError, ValueError):
+            pass
+        with _RETRY_LOCK:
+            r2 = _run_e2e_once(a2, flavour, timeout * 4, env)
+        r2["retried"] = True
+        r2["first_attempt_argv"] = r["argv"]
+        return r2
+    return r
+
+
+def _run_e2e_once(args, flavour, timeout, env):
     exe = e2e_exe(flavour)
     argv = [exe] + ["%s=%s" % (k, v) for k, v in args.items()]
     e = dict(os.environ)
